@@ -171,6 +171,9 @@ def _ads_spec(r, k):
         props["polarizability"] = round(r.uniform(0.1, 10), 5)
     if r.random() < 0.3:
         props["alias"] = [ADS_NAMES[k].lower() + "-alias"]
+    if r.random() < 0.3:
+        # a list-valued property in which a value repeats (stored one row per value: every row is content)
+        props["fit_coefficients"] = r.choice([[4.25, 4.25, -7.75], [1.5, 2.5, 1.5, 2.5], [0.5, 0.5]])
     return {"name": ADS_NAMES[k], "props": props}
 
 
@@ -188,8 +191,9 @@ def _mat_spec(r, k):
 def _iso_spec(r, variant):
     kind = r.choice(["point", "point", "point-des", "model", "base"])
     meta = {}
-    for key in r.sample(["user", "lab", "project", "note", "flag", "reading", "count", "code"], r.randint(0, 4)):
-        meta[key] = {"user": "someone", "lab": "lab 7", "project": "p-x", "note": "texte libre", "flag": r.random() < 0.5, "reading": round(r.uniform(-5, 5), 4) + 0.0,  # (+0.0: no negative zero, SQLite does not keep its sign)
+    for key in r.sample(["user", "lab", "project", "note", "flag", "reading", "count", "code", "degassed"], r.randint(0, 4)):
+        meta[key] = {"degassed": r.choice(["True", "true", "false", "yes"]),  # (text, as typed into a form - not a boolean)
+                     "user": "someone", "lab": "lab 7", "project": "p-x", "note": "texte libre", "flag": r.random() < 0.5, "reading": round(r.uniform(-5, 5), 4) + 0.0,  # (+0.0: no negative zero, SQLite does not keep its sign)
                      "count": r.randint(-3, 40), "code": str(r.randint(1, 99))}[key]
     spec = {"kind": kind, "material": r.choice(MAT_NAMES), "adsorbate": r.choice(ADS_NAMES), "temperature": round(r.uniform(70, 400), 2), "meta": meta, "variant": variant}
     if r.random() < 0.35:
